@@ -618,9 +618,14 @@ def call_builtin(self, name, args, kwargs, st, node):
         n = vs[0].length
 
         def at(i):
-            outs = list(self.apply(fn, [v.at(i) for v in vs], {}, st, node))
+            # facts about the element (postconditions of the mapped function) go to the state of the reader
+            tgt = self.view_st if self.view_st is not None else st
+            outs = list(self.apply(fn, [self.vat(v, i, tgt) for v in vs], {}, tgt, node))
             if len(outs) != 1:
                 raise Untranslatable("map function forks")
+            if outs[0][1] is not tgt:
+                tgt.pc[:] = outs[0][1].pc
+                tgt.heap = outs[0][1].heap
             return outs[0][0]
         mv = View(n, at, None)
         mv.inner = vs[0] if len(vs) == 1 else None
